@@ -348,8 +348,13 @@ class _SbmlCase(object):
         self.outs = self.outs[:self.n_out] if rng.random() < 0.5 \
             else self.outs[::-1][:self.n_out]
         self.model.set_outputs(self.outs)
-        self.arrangement = G.ARRANGEMENTS[int(rng.integers(8))]
+        # (also: an output without measurements, or no measurement at all -
+        # an individual who dropped out still has a likelihood, of value 0)
+        self.arrangement = G.ARRANGEMENTS[int(rng.integers(9))]
         self.times = G.gen_grids(rng, self.n_out, self.arrangement)
+        if rng.random() < 0.06:
+            self.arrangement = 'all_empty'
+            self.times = [np.array([]) for _ in range(self.n_out)]
         self.times = [t + 0.1 for t in self.times]
         self.em_names = [G.EM_CLASSES[int(rng.integers(4))]
                          for _ in range(self.n_out)]
@@ -364,8 +369,6 @@ class _SbmlCase(object):
             for n in names])
         self.em_true = [rng.uniform(0.1, 0.5, size=D.ERROR_MODELS[nm][0])
                         for nm in self.em_names]
-        y = self.model.simulate(self.true, np.unique(np.concatenate(
-            self.times)))
         self.obs = []
         for o in range(self.n_out):
             ybar = self._solve_each(self.true, o)
